@@ -1,0 +1,80 @@
+//go:build verif
+
+package tls
+
+// Verification hooks of the handshake-level checks (group tlshs: C24, C27, C28, C31, C32).
+// Nothing in this file is compiled without the build tag `verif`.
+
+import "time"
+
+// VerifHSHasAESGCMHardwareSupport reports the package's hasAESGCMHardwareSupport decision,
+// which steers the AES-GCM / ChaCha20 preference reordering of pickCipherSuite.
+func VerifHSHasAESGCMHardwareSupport() bool { return hasAESGCMHardwareSupport }
+
+// VerifHSDefaultCipherSuites returns copies of the default TLS <= 1.2 and TLS 1.3 suite lists.
+func VerifHSDefaultCipherSuites() (legacy, tls13 []uint16) {
+	return append([]uint16(nil), defaultCipherSuites()...), append([]uint16(nil), defaultCipherSuitesTLS13()...)
+}
+
+// VerifHSClientOfferable reports whether makeClientHello would advertise the suite id without
+// ForceSuites (membership in the cipherSuites table, or a TLS 1.3 suite).
+func VerifHSClientOfferable(id uint16) (legacy, tls12Only, tls13 bool) {
+	for _, s := range cipherSuites {
+		if s.id == id {
+			return true, s.flags&suiteTLS12 != 0, false
+		}
+	}
+	return false, false, cipherSuiteTLS13ByID(id) != nil
+}
+
+// VerifHSSessionInfo is the abstract content of a ClientSessionState.
+type VerifHSSessionInfo struct {
+	Ticket      []byte
+	Vers        uint16
+	CipherSuite uint16
+	Lifetime    uint32
+	ReceivedAt  time.Time
+	UseBy       time.Time
+}
+
+// VerifHSSessionGet reads the fields of a client session (ticket bytes are copied).
+func VerifHSSessionGet(s *ClientSessionState) VerifHSSessionInfo {
+	return VerifHSSessionInfo{
+		Ticket:      append([]byte(nil), s.sessionTicket...),
+		Vers:        s.vers,
+		CipherSuite: s.cipherSuite,
+		Lifetime:    s.lifetimeHint,
+		ReceivedAt:  s.receivedAt,
+		UseBy:       s.useBy,
+	}
+}
+
+// VerifHSSessionWithTicket returns a copy of s that presents the given ticket bytes instead of
+// the ones the server issued (everything else, in particular the secrets, is unchanged).
+func VerifHSSessionWithTicket(s *ClientSessionState, ticket []byte) *ClientSessionState {
+	c := *s
+	c.sessionTicket = append([]byte(nil), ticket...)
+	return &c
+}
+
+// VerifHSSetReadHook installs f to be called by readHandshake with the raw bytes (4-byte header
+// included) of every handshake message, after record decryption and before it is parsed.
+func VerifHSSetReadHook(f func(c *Conn, isClient bool, msg []byte)) {
+	if f == nil {
+		verifHSReadHook = nil
+		return
+	}
+	verifHSReadHook = func(c *Conn, msg []byte) { f(c, c.isClient, append([]byte(nil), msg...)) }
+}
+
+// VerifHSSetWriteHook installs f to be called by writeRecordLocked with the record type and the
+// plaintext payload of every record before it is protected and written.
+func VerifHSSetWriteHook(f func(c *Conn, isClient bool, typ uint8, data []byte)) {
+	if f == nil {
+		verifHSWriteHook = nil
+		return
+	}
+	verifHSWriteHook = func(c *Conn, typ recordType, data []byte) {
+		f(c, c.isClient, uint8(typ), append([]byte(nil), data...))
+	}
+}
